@@ -115,6 +115,15 @@ theorem bm_reduction (c : BchInst) (hc : c ∈ Generated.C03B.instances) (t : Na
     Kaira.BM.correct c.P c.m t c.n (encode c.G msg ^^^ e) = encode c.G msg ^^^ Kaira.BM.correct c.P c.m t c.n e :=
   BMProofs.bm_reduction c t (C03.bch_ok c hc) ht msg e
 
+/-- **certified output** (every certified BCH instance, any `t` with `2t < δ`): a word with all-zero syndromes within distance `t`
+of the received word `code word ⊕ e` (weight `e ≤ t`) IS the transmitted code word, whatever produced it.  The check evaluates
+the two conditions on every corrected word the implementation returns (`bmcert` lines). -/
+theorem bm_output_certified (c : BchInst) (hc : c ∈ Generated.C03B.instances) (t : Nat) (ht : 2 * t < c.delta) (msg e out : Nat)
+    (he : e < 2 ^ c.n) (hw : weight c.n e ≤ t) (hout : out < 2 ^ c.n)
+    (hz : ∀ i ∈ List.range' 1 (2 * t), Kaira.BM.syndAt c.P c.n out i = 0)
+    (hd : weight c.n (out ^^^ (encode c.G msg ^^^ e)) ≤ t) : out = encode c.G msg :=
+  BMProofs.bm_output_certified c (C03.bch_ok c hc) t ht msg e out he hw hout hz hd
+
 /-- instances small enough for the kernel to run the decoder on every light pattern -/
 def bmSmall (c : BchInst) : Bool := decide (c.n ≤ 15) && decide ((c.delta - 1) / 2 ≤ 1) && decide (1 ≤ c.delta)
 
